@@ -134,12 +134,15 @@ func createPresignedHttpRequestFromCtx(ctx *fiber.Ctx, signedHdrs []string, cont
 	ctx.Request().URI().QueryArgs().VisitAll(func(key, value []byte) {
 		_, ok := signedQueryArgs[string(key)]
 		if !ok {
+			// names are escaped like values: a '#' or '&' in a name must not
+			// cut the rest of the query out of what is signed
+			escapeKey := url.QueryEscape(string(key))
 			escapeValue := url.QueryEscape(string(value))
 			if isFirst {
-				uri += fmt.Sprintf("?%s=%s", key, escapeValue)
+				uri += fmt.Sprintf("?%s=%s", escapeKey, escapeValue)
 				isFirst = false
 			} else {
-				uri += fmt.Sprintf("&%s=%s", key, escapeValue)
+				uri += fmt.Sprintf("&%s=%s", escapeKey, escapeValue)
 			}
 		}
 	})
